@@ -9,7 +9,10 @@ Space: every edit sequence of length 1 and 2 over EDITS (all ordered pairs, inap
 counted and skipped) x every expression of EXPRS, evaluated before the first edit (fills caches),
 after every edit on the same object, and on the from-scratch copy of the final state.
 Edits address atoms by (residue position, atom name) so that a sequence stays meaningful after
-indices have shifted; every edit keeps the atom order consistent with the residue order.
+indices have shifted.  The first nine edits keep the traversal order equal to the .index order; the
+last three (ORDER_BREAKING) do not: there the result is compared as a set with the reference on the
+.index attribute and as a list with eval(select_expression); the documentation does not say in
+which order select() lists the atoms of such a topology, so increasing order is only recorded.
 """
 from . import selection_ref as R
 
@@ -23,11 +26,17 @@ EDITS = [
     ("rename_res", 7, "LIG"),          # second water is no longer water
     ("rename_res", 1, "ALA"),          # GLY -> ALA: other code
     ("append",),                       # new SER residue (N, CA bonded) at the end of the last chain
+    # the public API also allows edits after which the chain -> residue -> atom traversal order is
+    # no longer the .index order:
+    ("add_atom_to", 0, "XA"),          # add_atom to the FIRST residue: the new atom gets the highest index
+    ("add_atom_to", 6, "XW"),          # add_atom to a residue in the middle (first water)
+    ("insert_outside", 6, 2, "XI"),    # insert_atom(index=2) into the first water, whose block does not contain 2
 ]
+ORDER_BREAKING = {"add_atom_to", "insert_outside"}
 
 EXPRS = [
     "protein", "water", "backbone", "sidechain",
-    "name CA", "name H1 H2", "name M M0 CX", "element H", "symbol VS", "type O and mass > 13", "mass < 0.5",
+    "name CA", "name H1 H2", "name M M0 CX XA XW XI", "element H", "symbol VS", "type O and mass > 13", "mass < 0.5",
     "index < 33", "index 33 34 35",
     "n_bonds 2 and water", "n_bonds 0", "n_bonds > 2", "water and name O and n_bonds 2",
     "resid 6", "resi 7 to 13", "residue 101", "resSeq 1 6", "resname HOH", "resn ALA LIG SER", "rescode A", "code G S",
@@ -82,6 +91,10 @@ def apply_edit(top, e):
         if r.name == e[2]:
             return False
         r.name = e[2]
+    elif k == "add_atom_to":
+        top.add_atom(e[2], md.element.carbon, _res(top, e[1]))
+    elif k == "insert_outside":
+        top.insert_atom(e[3], None, _res(top, e[1]), index=e[2])
     elif k == "append":
         last = list(top.chains)[-1]
         r = top.add_residue("SER", last, resSeq=6, segment_id="SC")
